@@ -264,14 +264,16 @@ def start_text(scen):
     return ' '.join(url_of(s) for s in scen['starts'])
 
 
-def validate(chk, items, tag):
-    """items: list of (origin, scenario, record).  Monitor + strict validation, verdict bookkeeping."""
-    if not items:
-        return
+def validate(chk, items, tag, nchunk=4):
+    """items: list of (origin, scenario, record); items[0] is the base of the binding self-tests.
+    Monitor + strict validation, verdict bookkeeping."""
     mtr = [mon_trace(s, r) for (_, s, r) in items]
     strr = [strict_trace(s, r) for (_, s, r) in items]
-    nchunk = 4
-    size = (len(items) + nchunk - 1) // nchunk
+    bad, inj = control_traces(items[0][1], items[0][2])
+    n_items = len(items)
+    strr += [t for (_, t) in bad]
+    mtr += [t for (_, _, _, t) in inj]
+    size = (max(len(mtr), len(strr)) + nchunk - 1) // nchunk
 
     def run_mon(part):
         return tlc.validate_batch('FtpScopeMon', mon_cfg(), part, timeout=1500)
@@ -280,16 +282,18 @@ def validate(chk, items, tag):
         return tlc.validate_batch('FtpScopeTrace', trace_cfg(), part, timeout=1500)
     jobs = []
     with ThreadPoolExecutor(max_workers=8) as ex:
-        for off in range(0, len(items), size):
+        for off in range(0, len(mtr), size):
             jobs.append(('m', off, ex.submit(run_mon, mtr[off:off + size])))
+        for off in range(0, len(strr), size):
             jobs.append(('s', off, ex.submit(run_strict, strr[off:off + size])))
-        mv = [None] * len(items)
-        sv = [None] * len(items)
+        mv = [None] * len(mtr)
+        sv = [None] * len(strr)
         for kind, off, fut in jobs:
             v, st = fut.result()
             chk.trace_stats(st)
             for j, x in enumerate(v):
                 (mv if kind == 'm' else sv)[off + j] = x
+    chk.extra['ftp_binding_selftest'] = judge_controls(sv[0]['accepted'], bad, inj, sv[n_items:], mv[n_items:])
     for (origin, scen, rec), m, s, mt, stt in zip(items, mv, sv, mtr, strr):
         chk.validated(1)
         cmds = [e for e in rec['ev'] if e['e'] == 'cmd']
@@ -331,15 +335,12 @@ def validate(chk, items, tag):
                                 'commands': ['%s %s' % (e['c'], e['raw']) for e in cmds]})
 
 
-def controls(chk, scen, rec):
-    """Binding self-tests, run with every check: (a) a recording with one corrupted field must be rejected by the
-    strict spec; (b) a recording with one injected out-of-scope command must be flagged by the monitor, with the
-    right rule.  `scen` must be the crawl  ftp://h.test/pub/ -r -l 1  of the catalogue's first tree."""
+def control_traces(scen, rec):
+    """Binding self-tests, run with every check: (a) recordings with one corrupted field, which the strict spec must
+    reject; (b) recordings with one injected out-of-scope command, which the monitor must flag with the right rule.
+    `scen` must be the crawl  ftp://h.test/pub/ -r -l 1  of the catalogue's first tree."""
     import copy
     base = strict_trace(scen, rec)
-    v, _ = tlc.validate_batch('FtpScopeTrace', trace_cfg(), [base])
-    if not v[0]['accepted']:
-        return 'skipped: the base recording is itself rejected (drift)'
     bad = []
 
     def corrupt(what, fn):
@@ -349,26 +350,30 @@ def controls(chk, scen, rec):
     fins = [i for i, e in enumerate(base['ev']) if e['e'] == 'fin' and e['kids']]
     cmds = [i for i, e in enumerate(base['ev']) if e['e'] == 'cmd']
     begins = [i for i, e in enumerate(base['ev']) if e['e'] == 'begin']
-    corrupt('child level + 1', lambda ev: ev[fins[0]]['kids'][0].__setitem__('lvl', ev[fins[0]]['kids'][0]['lvl'] + 1))
-    corrupt('command path', lambda ev: ev[cmds[-1]].__setitem__('p', ['pub-old']))
-    corrupt('command kind', lambda ev: ev[cmds[0]].__setitem__('c', 'RETR'))
-    corrupt('begin level', lambda ev: ev[begins[-1]].__setitem__('lvl', 0))
-    corrupt('check-in status', lambda ev: ev[fins[0]].__setitem__('st', 'done'))
-    corrupt('child dropped', lambda ev: ev[fins[0]]['kids'].pop())
-    v, st = tlc.validate_batch('FtpScopeTrace', trace_cfg(), [t for (_, t) in bad])
-    chk.trace_stats(st)
-    for (what, _), x in zip(bad, v):
-        if x['accepted']:
-            raise tlc.TLCError('binding self-test: FtpScopeTrace accepts a recording with a corrupted field (%s)' % what)
+    if fins and cmds and begins:
+        corrupt('child level + 1', lambda ev: ev[fins[0]]['kids'][0].__setitem__('lvl', ev[fins[0]]['kids'][0]['lvl'] + 1))
+        corrupt('command path', lambda ev: ev[cmds[-1]].__setitem__('p', ['pub-old']))
+        corrupt('command kind', lambda ev: ev[cmds[0]].__setitem__('c', 'RETR'))
+        corrupt('begin level', lambda ev: ev[begins[-1]].__setitem__('lvl', 0))
+        corrupt('check-in status', lambda ev: ev[fins[0]].__setitem__('st', 'done'))
+        corrupt('child dropped', lambda ev: ev[fins[0]]['kids'].pop())
     inj = []
     for c, p, rule in (('RETR', ['pub-old', 'a.txt'], 'Unreachable'), ('LIST', ['pub', 'sub', 'deeper'], 'Level'),
-                       ('LIST', [], 'Unreachable'), ('SIZE', ['pub', 'sub', 'deeper', 'd.txt'], 'Level')):
+                       ('LIST', [], 'Unreachable'), ('SIZE', ['pub', 'sub', 'deeper', 'd.txt'], 'Level'),
+                       ('RETR', ['pub', 'a.txt'], 'Tries')):
         t = mon_trace(scen, rec)
         t['ev'].insert(len(t['ev']) - 1, {'e': 'cmd', 'c': c, 'p': p})
         inj.append((c, p, rule, t))
-    v, st = tlc.validate_batch('FtpScopeMon', mon_cfg(), [t for (_, _, _, t) in inj])
-    chk.trace_stats(st)
-    for (c, p, rule, _), x in zip(inj, v):
+    return bad, inj
+
+
+def judge_controls(base_ok, bad, inj, sv, mv):
+    if not base_ok:
+        return 'skipped: the base recording is itself rejected (drift)'
+    for (what, _), x in zip(bad, sv):
+        if x['accepted']:
+            raise tlc.TLCError('binding self-test: FtpScopeTrace accepts a recording with a corrupted field (%s)' % what)
+    for (c, p, rule, _), x in zip(inj, mv):
         if x['bad'] % 1000 != 1 << RULES.index(rule):
             raise tlc.TLCError('monitor self-test: injected %s %s gives mask %d, expected rule %s'
                                % (c, path_text(p), x['bad'], rule))
@@ -391,12 +396,15 @@ def run(chk):
         cat = catalogue()
         procs = 4 if quick else 6
         cat_recs = execute_all(cat, procs)
+        t_cat = time.time() - t0
         gen, gres = f_gen.result()
-        n_gen = 110 if quick else 2600
+        n_gen = 110 if quick else 3400
         sample = pick(gen, n_gen, rng)
         gen_recs = execute_all(sample, procs)
+        t_gen = time.time() - t0
         design = f_design.result()
         bug = f_bug.result()
+        t_tlc = time.time() - t0
     name = 'FtpScope[%s]' % space
     chk.design(name, design, constants={'Space': space, 'BugGlobDirLevel': False, 'scenarios': len(gen)},
                expect_actions=ACTIONS)
@@ -405,11 +413,12 @@ def run(chk):
                            % bug['violated'])
     chk.extra['ftp_negative_control'] = 'BugGlobDirLevel = TRUE violates CmdsInScope in the model, as required'
     items = [('catalogue', s, r) for s, r in zip(cat, cat_recs)] + [('tlc-generated', s, r) for s, r in zip(sample, gen_recs)]
-    validate(chk, items, 'tlc-generated')
-    chk.extra['ftp_binding_selftest'] = controls(chk, cat[0], cat_recs[0])
+    validate(chk, items, 'tlc-generated', nchunk=2 if quick else 4)
     chk.extra['ftp_crawls'] = {'catalogue': len(cat), 'tlc_generated_space': len(gen), 'tlc_generated_run': len(sample),
                                'commands_observed': sum(1 for (_, _, r) in items for e in r['ev'] if e['e'] == 'cmd'),
-                               'wall_s': round(time.time() - t0, 1)}
+                               'wall_s': round(time.time() - t0, 1),
+                               'phases_s': {'catalogue_crawls': round(t_cat, 1), 'generated_crawls': round(t_gen, 1),
+                                            'design_checks_done': round(t_tlc, 1)}}
     chk.extra['ftp_interpretation'] = [
         'depth: start URLs 0, entries of a listed directory +1, files matched by a glob URL keep its depth, directories '
         'matched by a glob URL are one level deeper',
